@@ -790,7 +790,9 @@ class BosonicBackend(BaseBosonic):
             return np.array([res[:, 0] + 1j * res[:, 1]]).T
 
         res = select
-        self.circuit.post_select_heterodyne(mode, select)
+        # the circuit post-selects on quadrature values: the outcome alpha corresponds to
+        # sqrt(2 hbar) (Re alpha, Im alpha) (the sampling branch above divides by the same factor)
+        self.circuit.post_select_heterodyne(mode, np.sqrt(2 * self.circuit.hbar) * select)
         return np.array([[res]])
 
     def is_vacuum(self, tol=1e-10, **kwargs):
